@@ -9,6 +9,7 @@ import (
 	"os"
 	"sort"
 
+	"verifharness/internal/model"
 	"verifharness/internal/run"
 	_ "verifharness/internal/streams"
 )
@@ -20,6 +21,7 @@ func main() {
 	shards := flag.Int("shards", 0, "parallel shards (default: cores)")
 	out := flag.String("out", "", "result JSON path")
 	list := flag.Bool("list", false, "list streams")
+	replay := flag.String("replay", "", "replay one request line (JSON) on implementation and model")
 	nomodel := flag.Bool("nomodel", false, "run monitors only (model executable unavailable)")
 	flag.Parse()
 	if *list {
@@ -39,6 +41,25 @@ func main() {
 		os.Exit(2)
 	}
 	run.NoModel = *nomodel
+	if *replay != "" {
+		if s.Replay == nil {
+			fmt.Fprintln(os.Stderr, "stream has no replay")
+			os.Exit(2)
+		}
+		impl := s.Replay(*replay)
+		fmt.Println("impl :", impl)
+		if !*nomodel {
+			if p, err := model.Start(); err == nil {
+				m, _ := p.Ask(*replay)
+				fmt.Println("model:", m)
+				p.Close()
+			}
+		}
+		if impl == "" {
+			os.Exit(1)
+		}
+		return
+	}
 	res := run.Exec(s, *seed, *n, *shards)
 	if *out != "" {
 		if err := res.Write(*out); err != nil {
